@@ -114,6 +114,12 @@ def _sampler(rng):
             "r2": -rnd(rng, 3.1, 5), "r3": rnd(rng, 0.5, 4)}
 
 
+def _sampler_straddle(rng):
+    """complex-pair roots with a0 and a1 on opposite sides of Re(root)"""
+    u = rnd(rng, 0.01, 0.08)
+    return {"a0": u * rnd(rng, 1.2, 2.5), "a1": u * rnd(rng, 0.3, 0.8), "beta0": rnd(rng, 6, 10), "r1": -rnd(rng, 0.05, 0.4), "u": u, "v": rnd(rng, 0.05, 0.3)}
+
+
 def _validate_ei(log, ei, names):
     """translator validation: symbolic result evaluated at concrete points == the function on floats."""
     import mpmath as mp
@@ -213,6 +219,22 @@ def case_as4(log, shape):
         J03 = Cx.lift(as4.j03_exact(j12, js["j13"], js["j23"], js["j33"], b_list))
         v = prove_zero(J03.re.tangent() - 1 / (a1 * beta0 * P1), "d j03_exact/d a1 == 1/(a1 beta0 P)")
         log.decide(v, key="as4.j03_exact:derivative", replay=(MOD, "replay_as4", {"name": "j03", "shape": shape}), sampler=_sampler)
+        # continuity: derivative + value at a0 decide J only if J has no jump between a0 and a1
+        for v in S.prove_regular("as4 exact integrals (%s roots): " % shape):
+            cands = []
+            if v.model:
+                p = fpoint(v.model)
+                if all(k in p for k in ("a0", "a1")):
+                    # a singular point of some atom: straddle it
+                    for d in (0.15, 0.4):
+                        for x in ("a0", "a1"):
+                            q = dict(p)
+                            y = "a1" if x == "a0" else "a0"
+                            q[x] = p[x] * (1 + d)
+                            q[y] = p[x] * (1 - d)
+                            q.setdefault("beta0", 8.0)
+                            cands.append(q)
+            log.decide(v, key="as4.exact:continuity", replay=(MOD, "replay_as4", {"name": "j13", "shape": shape}), sampler=_sampler_straddle if shape == "complex" else _sampler, candidates=cands)
         log.twin("domain")
         log.collect_ctx()
 
